@@ -27,6 +27,7 @@ var (
 	fBudget = flag.Duration("sim.budget", 0, "wall-clock budget for this worker")
 	fKnown  = flag.String("sim.known", "/verif/known_findings.txt", "known findings file")
 	fDump   = flag.Bool("sim.dumplog", false, "print event log")
+	fMaxMem = flag.Int("sim.maxmem", 3072, "MiB of memory obtained from the system after which the worker hands the rest of its range to a fresh process")
 	fMode   = flag.String("sim.mode", "search", "search|replay|logs")
 	fHang   = flag.Duration("sim.hang", 240*time.Second, "real-time watchdog per run")
 )
@@ -99,6 +100,9 @@ type workerOut struct {
 	Known       map[string]int    `json:"known"`
 	HarnessErr  string            `json:"harness_err,omitempty"`
 	LogHashes   map[string]string `json:"log_hashes,omitempty"`
+	// set when the worker stopped before the end of its range because of its memory use
+	NextSeed int64 `json:"next_seed,omitempty"`
+	RunsLeft int   `json:"runs_left,omitempty"`
 }
 
 func TestSim(t *testing.T) {
@@ -128,6 +132,17 @@ func TestSim(t *testing.T) {
 	for i := 0; i < *fCount; i++ {
 		if *fBudget > 0 && time.Since(start) > *fBudget {
 			break
+		}
+		if i > 0 && i%8 == 0 {
+			// What the runs of a long batch leave behind (stores of nodes that were crashed, goroutines of
+			// abandoned bubbles) adds up: the process hands the rest of its range to a fresh one.
+			var ms runtime.MemStats
+			runtime.ReadMemStats(&ms)
+			if ms.Sys > uint64(*fMaxMem)<<20 {
+				out.NextSeed = *fSeed0 + int64(i)**fStride
+				out.RunsLeft = *fCount - i
+				break
+			}
 		}
 		seed := *fSeed0 + int64(i)**fStride
 		plan := eng.Gen(*fProp, seed, *fTier)
